@@ -179,6 +179,24 @@ CLAIMED = {
    note="Trusted: Coq kernel+vm_compute; javac/javap; the scraper; Lang/Jvm.v as transcription of JVMS 4.3 / JNI mangling. Seven defects "
         "repaired (f4862d1, 988aa46, c98a583, e387bc4 and three more, see known_findings.json); known finding C07-K1 (independent identifier-style settings).",
    technique="Coq proofs over all parameter lists / names against a JVM-descriptor and JNI-mangling specification + vm_compute correspondence + javac/javap judge", design="7/C07"),
+ 'C02': dict(
+   text="Coq model of the four structural type-string computations (cpp _type_specifier, java compute_data_type, objc type_decl, cppcli "
+        "typename), of the C++ method specifiers, of the Objective-C block type of a function and of identifier conversion. Theorems: each "
+        "type function is compositional (the string of a reference is a function of the head type's table row, the optional flag and the "
+        "strings of the arguments) and is the UNIQUE function satisfying its per-constructor clauses, so agreement on the clauses settles "
+        "every nesting depth; optional laws (std::optional wraps once, Java optional = boxed, C++/CLI reference types unchanged), interfaces "
+        "are shared_ptr, parameters by const reference unless by_value; specifier table (static/virtual/= 0/const/noexcept/[[nodiscard]], "
+        "finite); a throwing function block always ends in the NSError out-parameter; identifier styles. Render theorems for EVERY field "
+        "list: the C++ struct prints one const member, one constructor parameter and one initialiser per field in declaration order, the "
+        "Java class one field, one constructor parameter and one assignment. Ties: K-marshal runs the model on the attributes of the real "
+        "objects for every field, parameter, result, method and function of systematic programs (every atom x optional, all list/set, "
+        "sampled maps, depth 2) and random programs; K-ident on generated identifiers x 6 styles x prefix; K-jinja on the member loops. "
+        "Judges with an independent reference mapping: javac+javap (record fields in order + constructor, interface methods with "
+        "descriptors and static, enum constants in order, error code classes and constructors) and g++ -fsyntax-only static_asserts "
+        "(decltype of every record member, is_constructible, member-function pointer types with const/noexcept, is_abstract, enumerators).",
+   note="Trusted: Coq kernel+vm_compute; javac/javap/g++ as judges; the reference mapping in props/c02.py; Jinja runtime. Objective-C and "
+        "C++/CLI declaration lists are covered through their type/name strings only (no compiler for them here). One defect repaired (f7bd709).",
+   technique="Coq proofs of compositionality/uniqueness by nested induction over type references + render lemmas + vm_compute correspondences + javap / static_assert judges", design="7/C02"),
 }
 PENDING_REASON = "check not built yet in this session (work in progress; see DESIGN.md section 10 build order)"
 HOOK_COMMITS = []
